@@ -86,6 +86,22 @@ def case_tensordot(ctx, rng, many_terms=False):
         ctx.count("feature", "many-terms-pair")
     else:
         a, b, axa, axb = gen.contractible_pair(sr, rng, sym, False, maxnd=maxnd, values=vals, maxd=3 if maxnd == 3 else 2, p_ragged=0.12, p_hist=0.1, p_mixclass=0.08)
+    if rng.random() < 0.04:
+        # an operand that stores no block at all (the zero result of an earlier contraction
+        # fed into the next one): the result is zero with the combined charge
+        if rng.random() < 0.5:
+            a = a.copy()
+            a.blocks.clear()
+        else:
+            b = b.copy()
+            b.blocks.clear()
+        if rng.random() < 0.2:
+            a, b = a.copy(), b.copy()
+            a.blocks.clear()
+            b.blocks.clear()
+        ctx.count("feature", "block-less-operand")
+        if R.comb(sym, [a.charge, b.charge]) not in (a.charge, b.charge):
+            ctx.count("feature", "block-less-operand-and-both-charges-non-trivial")
     exact = mode_vals == "int"
     ra_, rb_ = gen.union_refs(sr, a, b, axa, axb)
     if any(dict(a.indices[i].chargemap) != dict(b.indices[j].chargemap) for i, j in zip(axa, axb)):
